@@ -12,6 +12,9 @@
                                      search replaced by the given table of lists (the implementation's own
                                      lists for every k_j): which k_j the recursion stops at
         -> "X <k'>"   | OOB:... | FUEL      (a k_j missing from the table gives the empty graph -> OOB)
+     B <n> <k_1> .. <k_n> <dim> <N> <N*dim ints>
+                                     ties of the L1 metric on the points: boundary_free_b for each k_i, tie_free_b
+        -> "B <b_1> .. <b_n> <tie_free>"
      F <k> <dim> <N> <N*dim ints>    find_neighbors over the reference exact k-NN search on integer points (L1)
         -> "F <fixed> <shipped>"     each: the k finally used | OOB:... | FUEL
      K <k> <dim> <N> <N*dim ints>    strong connectivity of the exact k-NN graph (no doubling)
@@ -97,6 +100,17 @@ let () =
              let knn kk = try List.assoc (int_of_nat kk) table with Not_found -> [] in
              let nn = nat_of_int n in
              Printf.printf "X %s\n" (show_fn (find_neighbors is_connected_fixed knn nn nn (nat_of_int k) true))
+           | "B" ->
+             let nk = take_int toks in
+             let ks = List.init nk (fun _ -> take_int toks) in
+             let dim = take_int toks in
+             let n = take_int toks in
+             let pts = read_points toks dim n in
+             let nn = nat_of_int n in
+             let d = pdist pts in
+             Printf.printf "B %s %s\n"
+               (String.concat " " (List.map (fun k -> b01 (boundary_free_b d nn (nat_of_int k))) ks))
+               (b01 (tie_free_b d nn))
            | "S" ->
              let n = take_int toks in
              let g = List.init n (fun _ -> let len = take_int toks in read_row toks len) in
